@@ -651,7 +651,7 @@ func runC04(args []string) error {
 			"to arguments of three deployed NeoVM interpreter contracts, run as one transaction in a block (with read-only transactions before/after) "+
 			"on two replica chains from the observed pre-state; block cases: 2-4 transactions in one block (earlier ones ending in HALT / uncaught throw / "+
 			"ABORT / ASSERT / fault in a callee / fault or swallowed exception in a finally block / out of gas, the last one with layered calls), the same "+
-			"transactions one per block on the replica; non-trivial = the tree contains a throw or an abort, for a block case: some transaction before the last did not halt; distinct by Coq term")
+			"transactions one per block on the replica; nests: 2-3 try/catch/finally nested in one frame (entry script or test contract) with calls in every region;  non-trivial = the tree contains a throw or an abort, for a block case: some transaction before the last did not halt; distinct by Coq term")
 	co.shard = 60
 	if cf.replay != "" {
 		cases, err := readReplay(cf.replay)
@@ -806,6 +806,17 @@ func runC04(args []string) error {
 	for i := 0; i < n/6; i++ {
 		g := &c04Gen{r: r, guarded: false, fail: 12 + r.intn(10)}
 		runOps(g.entry(2 + r.intn(2)))
+	}
+	// 3b. several handlers in one caller frame in different states, calls in every region (entry script: one context;
+	//     test contract: one context per handler)
+	for i := 0; i < 2 && !broken; i++ {
+		for _, t := range c04NestTemplates(r) {
+			runOps(c04NestPlace(r, t, i == 0))
+		}
+	}
+	for i := 0; i < n/5; i++ {
+		entry := r.chance(45)
+		runOps(c04NestPlace(r, c04NestTry(r, 2+r.intn(2), entry), entry))
 	}
 	// 4. block position: several transactions on the one reused VM, earlier ones ending in every way
 	for i := 0; i < n/4 && !broken; i++ {
